@@ -12,6 +12,7 @@ import AnthemModel.Props.C19
 import AnthemModel.Model.Strong
 import AnthemModel.Proofs.StrongSem
 import AnthemModel.Proofs.PropRename
+import AnthemModel.Proofs.StrongValid
 namespace Anthem.C03
 open Asp
 
@@ -207,6 +208,36 @@ theorem strong_refutes_with_renaming (t : StrongTask) (fuel : Nat) (ps : List Pr
               SubOn MB (ext t.left.preds t.right.preds) ∧
               progSat MB .here t.right ∧ ¬ progSat MB .here t.left)) :=
   strong_refutes_renamed t fuel ps h hpl hpr
+
+/-- **"Hence all problems are theorems exactly when the programs are strongly equivalent" - the soundness
+    half with no side condition**: for a universal task (either representation, every flag combination),
+    if NO emitted problem has a countermodel, then every here-and-there interpretation with `H ⊆ T`
+    satisfies the left program iff it satisfies the right one. (`rename_conflicting_symbols` needs no
+    hypothesis: `reading_surjective`.) -/
+theorem strong_equivalence_sound_no_side_condition (t : StrongTask) (hdir : t.direction = .universal) (fuel : Nat)
+    (ps : List Problem) (h : strongProblems t fuel = some ps)
+    (hvalid : ∀ P ∈ ps, ∀ J ρ, ¬ Refutes J ρ P) :
+    ∀ M : HTI, M.Sub → (progSat M .here t.left ↔ progSat M .here t.right) :=
+  strong_valid_implies_equivalent t hdir fuel ps h hvalid
+
+/-- **the completeness half with renaming**: if the programs have the same here-and-there models, no
+    interpretation whose readings (through the renamings of the two directions) merge interpretations with
+    `H ⊆ T` refutes an emitted problem. -/
+theorem strong_equivalence_complete_with_renaming (t : StrongTask) (fuel : Nat) (ps : List Problem)
+    (h : strongProblems t fuel = some ps)
+    (hequiv : ∀ M : HTI, M.Sub → (progSat M .here t.left ↔ progSat M .here t.right)) :
+    ∃ l r, processTheory t fuel t.left = some l ∧ processTheory t fuel t.right = some r ∧
+      ∀ (J : Interp) (MF MB : HTI),
+        C05.Merges ⟨propReading (directionProblem0 "forward" (transitionAxioms t) l r "left_" "right_").propRenaming
+          J.pred, J.fc⟩ MF →
+        C05.Merges ⟨propReading (directionProblem0 "backward" (transitionAxioms t) r l "right_" "left_").propRenaming
+          J.pred, J.fc⟩ MB →
+        MF.Sub → MB.Sub → ∀ ρ : Asg, ¬ ∃ P ∈ ps, Refutes J ρ P := by
+  obtain ⟨l, r, hl, hr, hmain⟩ := strong_refutes_renamed t fuel ps h rfl rfl
+  refine ⟨l, r, hl, hr, fun J MF MB hmF hmB hsF hsB ρ href => ?_⟩
+  rcases (hmain J MF MB hmF hmB (fun _ => ⟨hsF, hsB⟩) ρ).mp href with ⟨_, _, hL, hR⟩ | ⟨_, _, hR, hL⟩
+  · exact hR ((hequiv MF hsF).mp hL)
+  · exact hL ((hequiv MB hsB).mpr hR)
 
 /-- the names given to clashing propositional predicates are free (no symbolic constant, predicate symbol
     or placeholder of the problem has them) and pairwise different, so reading an interpretation through
